@@ -185,6 +185,28 @@ def run_case(case, ctx, st):
                              {"score": sc, "expected": val})
             fp = gen.build_estimator(name, params).fit_predict(Xin, y)
             need(np.array_equal(np.asarray(fp), labels), "fit_predict-differs-from-fit", {"fit_predict": fp, "labels_": labels})
+            # the same on data the model has not seen (inductive estimators, affinities that can be recomputed)
+            if name not in gen.NONPARAMETRIC and pre is None and name != "KernelRIM":
+                m2 = int(rng.integers(max(2, K), 20))
+                X2 = gen.make_data(rng, m2, d, kind)
+                if form == "int":
+                    X2 = np.abs(np.round(X2 * 3)) if nonneg else np.round(X2 * 3)
+                P2 = np.asarray(est.predict_proba(X2))
+                need(P2.shape == (m2, K) and bool(np.all(np.isfinite(P2))) and bool(np.all(np.abs(P2.sum(1) - 1) <= 1e-9)),
+                     "proba-fresh-data-not-probabilities", list(P2.shape))
+                need(np.array_equal(np.asarray(est.predict(X2)), P2.argmax(1)), "predict-fresh-not-argmax")
+                if np.all(np.isfinite(P2)) and not (dist == "tv" and ovo and K == 1):
+                    import gemclus.gemini as gg
+                    cls2 = {"kl": gg.KLGEMINI, "tv": gg.TVGEMINI, "hellinger": gg.HellingerGEMINI,
+                            "chi2": gg.ChiSquareGEMINI, "mmd": gg.MMDGEMINI, "wasserstein": gg.WassersteinGEMINI}[dist]
+                    obj2 = cls2(ovo=ovo, kernel="precomputed") if dist == "mmd" else (
+                        cls2(ovo=ovo, metric="precomputed") if dist == "wasserstein" else cls2(ovo=ovo))
+                    A2 = gen.expected_affinity(spec, X2, None)
+                    val2 = float(np.asarray(obj2(P2, A2)).reshape(-1)[0])
+                    sc2 = est.score(X2)
+                    ctx.count("score_fresh_data_checked")
+                    need(abs(sc2 - val2) <= 1e-9 * max(1.0, abs(val2)), "score-fresh-data-differs-from-documented-gemini",
+                         {"score": sc2, "expected": val2})
     except Exception as e:
         ctx.violation("post-fit-api", f"post-fit-call-raises/{name}/{type(e).__name__}@{where(e)}",
                       observed={"exc": repr(e)[:300], "estimator": name, "params": params, "form": form},
